@@ -137,8 +137,8 @@ inductive Res where
   | unit
 deriving DecidableEq, Repr, Hashable
 
+/-- a call that has been invoked and has not returned yet (several callers may be active) -/
 inductive Call where
-  | idle
   | invoked (id : Nat) (op : Op)
   | done (id : Nat) (ctors : List (Nat × Nat)) (res : Res)
 deriving DecidableEq, Repr, Hashable
@@ -166,7 +166,8 @@ structure St where
   refs : List RefSt := []
   /-- harness run id ↦ (generation, instance) -/
   runs : List (Nat × Nat) := []
-  call : Call := .idle
+  /-- the calls in progress, in order of invocation -/
+  calls : List Call := []
   /-- keys for which the harness' constructor will return a nil `Routine` at its next call -/
   nilNext : List Nat := []
 deriving DecidableEq, Repr, Hashable
@@ -467,12 +468,12 @@ def instBusy (y : G) (x : Inst) : Bool :=
 
 /-- nothing is left to do without a new call, a routine returning, or time passing -/
 def quiet (s : St) : Bool :=
-  s.call == .idle && noDue s && s.gens.all fun y => y.insts.all fun x => !instBusy y x
+  s.calls.isEmpty && noDue s && s.gens.all fun y => y.insts.all fun x => !instBusy y x
 
 inductive Ev where
   | config (c : Cfg)
   | inv (id : Nat) (op : Op)
-  | exec
+  | exec (id : Nat)
   | ctor (k d : Nat)
   | ret (id : Nat) (res : Res)
   | proceed (g i : Nat)
@@ -516,6 +517,20 @@ def Ev.obs : Ev → Option Obs
   | .nilnext k => some (.nilnext k)
   | _ => none
 
+/-- the operation of the invoked call `id` whose critical section has not run yet -/
+def pendingOp : List Call → Nat → Option Op
+  | [], _ => none
+  | .invoked id' op :: cs, id => if id' = id then some op else pendingOp cs id
+  | _ :: cs, id => pendingOp cs id
+
+/-- the constructor call `(k, d)` is logged: it belongs to the first call that made it -/
+def takeCtor : List Call → Nat → Nat → Option (List Call)
+  | [], _, _ => none
+  | .done id cs res :: rest, k, d =>
+    if cs.contains (k, d) then some (.done id (cs.erase (k, d)) res :: rest)
+    else (takeCtor rest k d).map (.done id cs res :: ·)
+  | c :: rest, k, d => (takeCtor rest k d).map (c :: ·)
+
 /-- one step of instance `i` of generation `g` -/
 def instStep (s : St) (g i : Nat) (f : G → Inst → Option Inst) : Option St :=
   match s.gens[g]? with
@@ -534,21 +549,19 @@ def step (s : St) : Ev → Option St
     match s.cfg with
     | none => none
     | some c =>
-      if s.call = .idle ∧ noDue s ∧ op.allowed c.rc then some { s with call := .invoked id op } else none
-  | .exec =>
-    match s.call with
-    | .invoked id op =>
+      if op.allowed c.rc then some { s with calls := s.calls ++ [.invoked id op] } else none
+  | .exec id =>
+    match pendingOp s.calls id with
+    | some op =>
       let r := execOp s op
-      some { r.1 with call := .done id r.2.1 r.2.2 }
-    | _ => none
+      some { r.1 with calls := s.calls.map fun c => if c = .invoked id op then .done id r.2.1 r.2.2 else c }
+    | none => none
   | .ctor k d =>
-    match s.call with
-    | .done id cs res => if cs.contains (k, d) then some { s with call := .done id (cs.erase (k, d)) res } else none
-    | _ => none
+    match takeCtor s.calls k d with
+    | some cs => some { s with calls := cs }
+    | none => none
   | .ret id res =>
-    match s.call with
-    | .done id' [] res' => if id = id' ∧ res = res' then some { s with call := .idle } else none
-    | _ => none
+    if s.calls.contains (.done id [] res) then some { s with calls := s.calls.erase (.done id [] res) } else none
   | .proceed g i => instStep s g i fun y x =>
       if x.st = .waiting ∧ chClosed y x.waitOn ∧ (x.waitOn = none → x.cancelled = false)
       then some { x with st := .entered } else none
@@ -594,7 +607,7 @@ def step (s : St) : Ev → Option St
         some (if r.exited then startKey s1 k true else s1)
       else none
     | none => none
-  | .advance => if s.cfg.isSome ∧ s.call = .idle ∧ noDue s then some { s with epoch := s.epoch + 1 } else none
+  | .advance => if s.cfg.isSome ∧ s.calls = [] ∧ noDue s then some { s with epoch := s.epoch + 1 } else none
   | .quiesce => if quiet s then some s else none
   | .probe j c =>
     match s.runs[j]? with
@@ -604,7 +617,7 @@ def step (s : St) : Ev → Option St
       | some x => if x.st = .running ∧ x.cancelled = c then some s else none
       | none => none
   | .nilnext k =>
-    if s.cfg.isSome ∧ s.call = .idle then some { s with nilNext := k :: s.nilNext.filter (· != k) } else none
+    if s.cfg.isSome then some { s with nilNext := k :: s.nilNext.filter (· != k) } else none
 
 /-- internal events worth trying -/
 def cands (s : St) : List Ev :=
